@@ -626,6 +626,48 @@ pub fn builder_reuse(prop: &str, pools: &Pools, r: &mut Report) {
                 }
             }
         }
+        // ONE batteries-included builder on which a build is REFUSED (a repeated top-level claim) and which is then used
+        // again: whatever it still produces must be bound to the footer and assertion it was given (a builder that tidies
+        // itself up after an error must not forget them); and a GenericBuilder WITHOUT any claim, built from twice
+        let mut ops = vec![BOp::Footer(footer.into())];
+        if let Some(a) = ia {
+            ops.push(BOp::Assertion(a.into()));
+        }
+        ops.extend([BOp::Set(Claim::Custom("data".into(), json!(1))), BOp::Set(Claim::Custom("data".into(), json!(2))), BOp::Build, BOp::Build, BOp::Set(Claim::Custom("other".into(), json!(3))), BOp::Build]);
+        let after_refusal: Vec<(Layer, Out<String>)> = batteries_run(p, &key, &ops).into_iter().map(|o| (Layer::Batteries, o)).collect();
+        let no_claims: Vec<(Layer, Out<String>)> = generic_seal_many(p, &key, &[], Some(footer), ia, 2, true).into_iter().map(|o| (Layer::Generic, o)).collect();
+        for (class, outs) in [("after a refused build", after_refusal), ("generic builder without claims", no_claims)] {
+            for (n, (layer, t)) in outs.iter().enumerate() {
+                r.evaluations += 1;
+                let tag = format!("{}/{}", p.name(), layer.name());
+                let replay = json!({"cmd": format!("{}-reuse", prop), "note": "builder-reuse case: re-run the check", "p": p.name(), "layer": layer.name(), "class": class, "build_no": n + 1});
+                let tok = match t {
+                    Out::Ok(t) => t,
+                    Out::Panic(loc) => {
+                        r.violation(format!("{} builder-reuse panic {}", prop, tag), format!("{} ({}): build #{} panicked: {}", tag, class, n + 1, loc), replay);
+                        continue;
+                    }
+                    Out::Err(_) => {
+                        if *layer == Layer::Generic {
+                            r.violation(format!("{} builder-reuse build-failed {}", prop, tag), format!("{} ({}): build #{} failed: {}", tag, class, n + 1, t.brief()), replay);
+                        } else {
+                            r.count(&format!("{}: build refused", class));
+                        }
+                        continue;
+                    }
+                };
+                let opens = open_any(*layer, p, &key, tok, Some(footer), ia).is_ok();
+                let opens_without_footer = open_any(*layer, p, &key, tok, None, ia).is_ok();
+                let opens_without_ia = ia.is_some() && open_any(*layer, p, &key, tok, Some(footer), None).is_ok();
+                if prop == "C05" && (!opens || opens_without_footer) {
+                    r.violation(format!("C05 builder-reuse footer-lost {} class={}", tag, class), format!("{} ({}): build #{} from ONE builder that was given footer {:?}: opens with the footer = {}, opens without = {}", tag, class, n + 1, footer, opens, opens_without_footer), replay);
+                } else if prop == "C06" && (!opens || opens_without_ia) {
+                    r.violation(format!("C06 builder-reuse assertion-lost {} class={}", tag, class), format!("{} ({}): build #{} from ONE builder that was given assertion {:?}: opens with it = {}, opens without it = {}", tag, class, n + 1, ia, opens, opens_without_ia), replay);
+                } else {
+                    r.count(&format!("{}: token bound as configured", class));
+                }
+            }
+        }
     }
 }
 
@@ -1353,7 +1395,8 @@ pub fn run_c06(tier: &str, seed: u64) -> Report {
         let footer = [None, Some("ftr"), Some("")][ai % 3];
         // at the core layer every fifth token carries the EMPTY message and every fifth a one-byte one (a shortcut taken for
         // an empty ciphertext must not bypass the binding of the assertion)
-        let msg = if layer == Layer::Core { [JSON_MSG, "", JSON_MSG, "x", JSON_MSG][ai % 5] } else { JSON_MSG };
+        // ... and at the generic layer every fourth token comes from a builder WITHOUT any claim
+        let msg = if layer == Layer::Core { [JSON_MSG, "", JSON_MSG, "x", JSON_MSG][ai % 5] } else if layer == Layer::Generic && ai % 4 == 1 { "{}" } else { JSON_MSG };
         let token = match seal_at(layer, p, &key, &mut rng, msg, footer, a.as_deref()) {
             Out::Ok(t) => t,
             o => {
@@ -1758,9 +1801,29 @@ pub fn run_c07(tier: &str, seed: u64) -> Report {
                     }
                 }
             }
+            // Y's OWN authentic token (same message, footer, assertion), with its header text replaced by X's: a token whose
+            // header names X must be refused by Y even though everything below the header is Y's own
+            let yown = match y {
+                P::V2P | P::V4P => ed.clone(),
+                _ if y.is_local() => KeyMat::sym(sym),
+                _ => pools.key(y, t),
+            };
+            let ia_y = if y.has_assertion() && t % 3 == 0 { Some("ia") } else { None };
+            if let Out::Ok(ty) = core_seal(y, &yown, &rng.bytes(32), &msg, footer, ia_y).0 {
+                let body = ty.splitn(3, '.').nth(2).unwrap_or("").to_string();
+                let named_x = format!("{}{}", x.header(), body);
+                for layer in LAYERS {
+                    let c = C07Case { x, y, layer, ykey: yown.clone(), token: named_x.clone(), footer: footer.map(|s| s.to_string()), ia: ia_y.map(|s| s.to_string()), class: "own-token-under-foreign-header+own-key".to_string() };
+                    c07_eval(&c, r);
+                }
+                r.count("own tokens presented under a foreign header");
+            } else {
+                r.inconclusive.push(format!("could not build a {} token for the foreign-header class", y.name()));
+            }
         }
     });
     total.merge(r);
+    total.require("own tokens presented under a foreign header", 1000);
     for &x in &ALL {
         for &y in &ALL {
             if x != y {
@@ -1780,4 +1843,4 @@ pub fn replay_c07(case: &Value) -> Report {
     r
 }
 
-pub const RULE_C07: &str = "all 56 ordered pairs (X,Y) of the 8 protocols (exhaustive) x 90 (thorough 3000) authentic X tokens (footer none/text, assertion none/text; JSON messages (incl. large ones of 4 200 .. 70 000 bytes) and messages of 0,1,16,24,32,40,48,64,80,96,160,192,208,256,300,1000 bytes so that foreign bodies line up with (or exceed) Y's nonce/tag/signature layout), each first opened by its own protocol, x {verbatim, header text rewritten to Y's} x {core, generic, batteries} entry points of Y, with key material shared wherever the types allow (same 32 bytes for v1-v4 local, same Ed25519 pair for v2/v4 public, symmetric key bytes reused as Ed25519 public key and as P-384 x-coordinate, public key bytes reused as symmetric key) and Y's own pool key otherwise; oracle: any Ok is a violation. distinct_nontrivial = distinct (X, Y, layer, verbatim|relabelled + key class, rejection variant)";
+pub const RULE_C07: &str = "all 56 ordered pairs (X,Y) of the 8 protocols (exhaustive) x 90 (thorough 3000) authentic X tokens (footer none/text, assertion none/text; JSON messages (incl. large ones of 4 200 .. 70 000 bytes) and messages of 0,1,16,24,32,40,48,64,80,96,160,192,208,256,300,1000 bytes so that foreign bodies line up with (or exceed) Y's nonce/tag/signature layout), each first opened by its own protocol, x {verbatim, header text rewritten to Y's} x {core, generic, batteries} entry points of Y (plus Y's OWN authentic token, same message/footer/assertion, with its header text rewritten to X's), with key material shared wherever the types allow (same 32 bytes for v1-v4 local, same Ed25519 pair for v2/v4 public, symmetric key bytes reused as Ed25519 public key and as P-384 x-coordinate, public key bytes reused as symmetric key) and Y's own pool key otherwise; oracle: any Ok is a violation. distinct_nontrivial = distinct (X, Y, layer, verbatim|relabelled + key class, rejection variant)";
